@@ -384,6 +384,10 @@ def do_replay_file(path, quiet=False):
     return 0, j
 
 
+MIRI_32 = "i686-unknown-linux-gnu"
+MIRI_STATE = {}
+
+
 def miri_crosscheck(prop, seed, n_hist, jobs, thorough=True):
     """Best-effort cross-check (thorough tier of C02): the same generated histories,
     replayed under Miri (system allocator, harness observation passes off). Sees what
@@ -406,9 +410,15 @@ def miri_crosscheck(prop, seed, n_hist, jobs, thorough=True):
     b = subprocess.run(["cargo", "+nightly", "miri", "run", "--offline", "--", "replay-many", "--file", "/dev/null"], cwd=SIM, env=env, stdout=subprocess.PIPE, stderr=subprocess.PIPE, text=True)
     if "replayed" not in b.stdout:
         return 0, [], "miri unavailable: " + (b.stderr.strip().splitlines() or ["?"])[-1][:200]
+    # pointer width is an axis no native run varies: every second shard runs on a 32-bit
+    # target (usize and pointer alignment 4) if the interpreter can build its sysroot
+    b32 = subprocess.run(["cargo", "+nightly", "miri", "run", "--offline", "--target", MIRI_32, "--", "replay-many", "--file", "/dev/null"], cwd=SIM, env=env, stdout=subprocess.PIPE, stderr=subprocess.PIPE, text=True)
+    have32 = "replayed" in b32.stdout
+    MIRI_STATE["i686"] = have32
 
     def shard(path):
-        p = subprocess.run(["cargo", "+nightly", "miri", "run", "--offline", "--", "replay-many", "--file", path], cwd=SIM, env=env, stdout=subprocess.PIPE, stderr=subprocess.PIPE, text=True)
+        t32 = have32 and files.index(path) % 2 == 1
+        p = subprocess.run(["cargo", "+nightly", "miri", "run", "--offline"] + (["--target", MIRI_32] if t32 else []) + ["--", "replay-many", "--file", path], cwd=SIM, env=env, stdout=subprocess.PIPE, stderr=subprocess.PIPE, text=True)
         done, last = 0, -1
         for l in p.stdout.splitlines():
             if '"progress"' in l:
@@ -421,7 +431,7 @@ def miri_crosscheck(prop, seed, n_hist, jobs, thorough=True):
             report = p.stderr[idx: idx + 1200]
             with open(path) as f:
                 hl = f.read().splitlines()
-            return (last if last >= 0 else 0), (hl[last] if 0 <= last < len(hl) else None, report)
+            return (last if last >= 0 else 0), (hl[last] if 0 <= last < len(hl) else None, ("[target " + MIRI_32 + "] " if t32 else "") + report)
         return done, None
 
     total, bad = 0, []
@@ -691,16 +701,16 @@ def check_sim(prop, tier, seed, jobs):
             print(f"violation kind={kind} cause={cause} msg={msg}")
             print(f"VIOLATION property={prop} replay={path}")
             return 1
-    if prop == "C02" and thorough and not unlisted:
+    if prop == "C02" and (thorough or os.environ.get("VERIF_MIRI_IN_QUICK")) and not unlisted:
         n_m = int(os.environ.get("VERIF_MIRI_HISTORIES", "640"))
         total_m, bad_m, note = miri_crosscheck(prop, seed, n_m, jobs)
-        coverage["miri_crosscheck"] = {"histories_replayed_under_miri": total_m, "undefined_behaviour_reports": len(bad_m), "note": note or "system allocator, observation passes off; -Zmiri-ignore-leaks"}
+        coverage["miri_crosscheck"] = {"histories_replayed_under_miri": total_m, "undefined_behaviour_reports": len(bad_m), "half_of_the_shards_on_32_bit_target": bool(MIRI_STATE.get("i686")), "note": note or "system allocator, observation passes off; -Zmiri-ignore-leaks"}
         if bad_m:
             hist, report = bad_m[0]
             os.makedirs(REPLAYS, exist_ok=True)
             path = os.path.join(REPLAYS, f"C02-miri-seed{seed}.json")
             with open(path, "w") as f:
-                json.dump({"property": "C02", "engine": "miri", "profile": "C02", "history_line": hist, "kind": "undefined-behaviour", "cause": "miri", "expect": {"report": report}}, f, indent=1)
+                json.dump({"property": "C02", "engine": "miri", "profile": "C02", "history_line": hist, "target": MIRI_32 if report.startswith("[target ") else None, "kind": "undefined-behaviour", "cause": "miri", "expect": {"report": report}}, f, indent=1)
             write_evidence(prop, tier, seed, LEVEL.get(prop, "exploration"), coverage, time.time() - t0, len(bad_m))
             print("violation kind=undefined-behaviour cause=miri msg=" + " ".join(report.split())[:300])
             print(f"VIOLATION property={prop} replay={path}")
